@@ -374,7 +374,10 @@ def verify_rsa_sha1(request):
     from .rsa import verify_sha1
 
     base_string = generate_signature_base_string(request)
-    sig = binascii.a2b_base64(to_bytes(request.signature))
+    try:
+        sig = binascii.a2b_base64(to_bytes(request.signature))
+    except binascii.Error:
+        return False
     return verify_sha1(sig, to_bytes(base_string), request.rsa_public_key)
 
 
